@@ -39,6 +39,13 @@ func qmsg(id int) handler.Message {
 	if id%5 != 0 {
 		raw = []byte{0xd3, 0, byte(id), byte(id >> 8), byte(id >> 16)}
 	}
+	if id%97 == 3 {
+		// non-RTCM data can be longer than any frame
+		raw = make([]byte, 1030+id%4000)
+		for j := range raw {
+			raw[j] = byte(id + j)
+		}
+	}
 	return handler.Message{MessageType: id, Timestamp: uint(id%604800000) + 1, SentAt: qStrings[id%7],
 		StartOfWeek: qStrings[7+id%3], ErrorMessage: qStrings[10+id%2], RawData: raw,
 		Readable: qReadable[id%3], LogLevel: []slog.Level{slog.LevelDebug, slog.LevelInfo}[id%2]}
@@ -49,9 +56,26 @@ var qReadable = []interface{}{"readable-0", "readable-1", 2}
 
 // sameMsg: is m exactly the value that was added under its identity?
 func sameMsg(m handler.Message) bool {
-	w := qmsg(m.MessageType)
-	return m.Timestamp == w.Timestamp && m.SentAt == w.SentAt && m.StartOfWeek == w.StartOfWeek && m.ErrorMessage == w.ErrorMessage &&
-		m.LogLevel == w.LogLevel && m.Readable == w.Readable && (m.RawData == nil) == (w.RawData == nil) && string(m.RawData) == string(w.RawData)
+	id := m.MessageType
+	if m.Timestamp != uint(id%604800000)+1 || m.SentAt != qStrings[id%7] || m.StartOfWeek != qStrings[7+id%3] || m.ErrorMessage != qStrings[10+id%2] ||
+		m.LogLevel != []slog.Level{slog.LevelDebug, slog.LevelInfo}[id%2] || m.Readable != qReadable[id%3] {
+		return false
+	}
+	switch {
+	case id%97 == 3:
+		if len(m.RawData) != 1030+id%4000 {
+			return false
+		}
+		for j, b := range m.RawData {
+			if b != byte(id+j) {
+				return false
+			}
+		}
+		return true
+	case id%5 != 0:
+		return len(m.RawData) == 5 && m.RawData[0] == 0xd3 && m.RawData[1] == 0 && m.RawData[2] == byte(id) && m.RawData[3] == byte(id>>8) && m.RawData[4] == byte(id>>16)
+	}
+	return m.RawData == nil
 }
 
 // ids maps a snapshot to message identities; a message that is not the value that
@@ -115,6 +139,9 @@ func execQueueSeq(c *child.Ctx, k queueCase, cj []byte) bool {
 // execQueueLong adds far more messages than the capacity, checking every snapshot.
 func execQueueLong(c *child.Ctx, k queueCase, cj []byte) {
 	q := circularQueue.NewCircularQueue(k.Cap)
+	var held []handler.Message
+	var heldIDs []int
+	heldAt := 0
 	for i := 1; i <= k.Adds; i++ {
 		q.Add(qmsg(i))
 		got := q.GetMessages()
@@ -131,6 +158,20 @@ func execQueueLong(c *child.Ctx, k queueCase, cj []byte) {
 		if !ok {
 			c.Violate("snapshot-wrong", fmt.Sprintf("capacity %d after %d additions: snapshot %v, expected the last %d in order%s", k.Cap, i, ids(got), want, alteredText()), cj)
 			return
+		}
+		// a snapshot that its reader still holds (the report being rendered) must not
+		// change when messages are added afterwards
+		if held != nil && i == heldAt+1+heldAt%5 {
+			now := ids(held)
+			if fmt.Sprint(now) != fmt.Sprint(heldIDs) {
+				c.Violate("snapshot-wrong", fmt.Sprintf("capacity %d: the snapshot taken after %d additions was %v; after %d additions the same slice reads %v%s", k.Cap, heldAt, heldIDs, i, now, alteredText()), cj)
+				return
+			}
+			held = nil
+			c.Count("held_snapshots_rechecked", 1)
+		}
+		if held == nil && i%7 == 3 {
+			held, heldIDs, heldAt = got, ids(got), i
 		}
 		if i%1024 == 0 {
 			if n := sizeUnderLock(q); n > k.Cap {
